@@ -293,6 +293,7 @@ def run_disp_impl(case):
                 return dict.__getitem__(self, k).call
         handlers = [_Fresh({k: _H(fn) for k, fn in d.items()}) for d in handlers]
     out = []
+    simrun = []
     for op in case["ops"]:
         del log[:]
         total[0] = 0
@@ -307,6 +308,26 @@ def run_disp_impl(case):
                 wrappers[op[1]] = True
             elif op[0] in ("reg", "unreg"):
                 reop(op)
+            elif op[0] == "disp" and len(op) > 3 and op[3] == "SIMRUN":
+                # the simulation the protocols live in is run to its end here (it has no events): every protocol is
+                # initialised, then finished, through whatever chains exist; the later operations find a finished simulation
+                import logging
+                logging.disable(logging.CRITICAL)
+                try:
+                    sim.start_simulation()
+                finally:
+                    logging.disable(logging.NOTSET)
+                chunks, cur = [], []
+                for x in list(log):
+                    cur.append(x)
+                    if x.startswith("proto ") and x.split()[2] in ("init", "finish"):
+                        chunks.append(cur)
+                        cur = []
+                simrun.extend(chunks[1:] + ([cur] if cur else []))
+                del log[:]
+                log.extend(chunks[0] if chunks else cur)
+            elif op[0] == "disp" and len(op) > 3 and op[3] == "SIMRUN-cont":
+                log.extend(simrun.pop(0) if simrun else ["missing"])
             elif op[0] == "disp":
                 deliver(op[1], op[2])
         except Runaway:
